@@ -91,7 +91,9 @@ func snapshotTypeConst(c *core.Ctx, name string) int64 {
 	if obj == nil {
 		return -1
 	}
-	if cst, ok := obj.(interface{ Val() interface{ ExactString() string } }); ok {
+	if cst, ok := obj.(interface {
+		Val() interface{ ExactString() string }
+	}); ok {
 		_ = cst
 	}
 	for _, sp := range []*ssa.Package{c.P.SPkg("snapshot")} {
